@@ -106,8 +106,7 @@ def run(ctx):
                    rule="library-built gas tables (random composition/gravity/temperature/dryness), pressure pairs inside the table for the "
                         "three-way comparison with tolerance = 4*(b-a)*h^2/12*max|f''| (measured on the table) + 1e-7 relative; random positive "
                         "(pressure, viscosity, Z) tables for the stand-alone transform incl. sub-table additivity")
-    ctx.validated_only += ["agreement of the adaptive-quadrature route with the table routes 'to quadrature accuracy' (QUADPACK is a trusted "
-                           "contract; no trapezoid error-bound theorem): validated numerically on the sampled pairs"]
+    ctx.validated_only += ["agreement of the adaptive-quadrature route with the table routes: the trapezoid bound sum M h^3/12 is a theorem (C08_trapz_error.v) but M = sup|(2p/(mu Z))''| is not derived for the Sutton/DAK functions and QUADPACK is a trusted contract; the tolerance used on the sampled pairs is computed from the table"]
     ctx.samples.append(dict(table_rows=int(len(P)), example="random positive table"))
 
 
